@@ -256,3 +256,49 @@ Theorem C08_handover_refuted_stale_available :
     is_available nx = true /\ os_ctrlof (ds_set nx) = [] /\ In k (os_ctrlof (ds_set r)).
 Proof. exact handover_refuted_stale_available. Qed.
 Print Assumptions C08_handover_refuted_stale_available.
+
+(** What holds. (i) Control is gained in one way only: along any history, a step after which an ObjectSet controls an object it did not
+    control before is a pass of the ObjectSet controller for an ObjectSet of that kind and name that is active (not archived, not
+    deleted) and not paused. Every other step - passes of other ObjectSets (adoption, teardown), deployment passes, edits, status
+    and probe changes, passes of the ObjectSet itself while paused, archived or deleted - can only shrink what it controls. *)
+Theorem C08_control_gained_only_by_own_active_pass :
+  forall hash slices id w s,
+    ~ own_active_pass id w s -> no_gain id (dstore w) (dstore (do_step hash slices w s)).
+Proof. exact (fun hash slices => step_no_gain hash slices true true). Qed.
+Print Assumptions C08_control_gained_only_by_own_active_pass.
+
+(** (ii) The handover clause, PARTIAL, relative to the archive decision. If at the deployment pass that archives revision n
+    (a) no newer listed revision reports Available [excludes F-C08e: the decision then rests on controllerOf] and
+    (b) the stored status.controllerOf of n lists every stored object n controls [excludes F-C08c, F-C08d],
+    then, along any continuation (any steps: passes, edits, pauses, status changes, faults) in which no re-created ObjectSet of n's
+    name runs an active pass, no pass of the ObjectSet controller for the archived or deleted n removes an object that the revision
+    listed right after n at the decision contains, inline or in its ObjectSlices. All three hypotheses are boolean tests. *)
+Theorem C08_handover_sound_partial :
+  forall hash slices fault stale w w1 evs res n pbp ur r,
+    NoDup (map sname (dw_sets w)) ->
+    dep_pass hash fault slices stale w = (w1, evs, res) -> In (DUpdate n LArchived pbp ur) evs ->
+    find_dset (dw_sets w) n = Some r ->
+    no_newer_available_b (listed stale w) r = true ->
+    ctrl_complete_b w r = true ->
+    exists nx, next_in n (listed stale w) = Some nx /\ (srev r < srev nx)%Z /\
+      forall h2, quiet_run_b hash slices (os_id (ds_set r)) w1 h2 = true ->
+        let w2 := run hash slices w1 h2 in
+        forall f mem k,
+          find_set (sw_sets (to_sworld w2)) (set_kind w2) (oi_ns (d_id (dw_dep w2))) n = Some mem -> os_id mem = os_id (ds_set r) ->
+          (os_deleting mem = true \/ os_life mem = LArchived) ->
+          In k (full_objects slices nx) -> stored w2 k <> None -> stored (do_step hash slices w2 (SSet f n)) k <> None.
+Proof. exact handover_sound_partial. Qed.
+Print Assumptions C08_handover_sound_partial.
+
+(** The hypotheses of (ii) are satisfiable by a history from an empty cluster in which the teardown does delete an object. *)
+Example C08_handover_premises_satisfiable :
+  exists w1 evs res r,
+    NoDup (map sname (dw_sets ex_world)) /\
+    dep_pass wit_hash None no_slices false ex_world = (w1, evs, res) /\ In (DUpdate 100 LArchived false WOk) evs /\
+    find_dset (dw_sets ex_world) 100 = Some r /\
+    no_newer_available_b (listed false ex_world) r = true /\ ctrl_complete_b ex_world r = true /\
+    quiet_run_b wit_hash no_slices (os_id (ds_set r)) w1 ex_after = true /\
+    stored (run wit_hash no_slices w1 ex_after) (hw_key 2 1) <> None /\
+    stored (do_step wit_hash no_slices (run wit_hash no_slices w1 ex_after) (SSet false 100)) (hw_key 2 1) = None /\
+    stored (do_step wit_hash no_slices (run wit_hash no_slices w1 ex_after) (SSet false 100)) (hw_key 2 3) <> None.
+Proof. exact handover_premises_satisfiable. Qed.
